@@ -7,7 +7,14 @@ From Verif Require Import Base.Bytes Base.Hex Base.Utf8 Crypto.Hmac Time.Calenda
 From Verif Require Import Generated.SrcConsts Model.Errors Model.Uri Model.Query Model.Headers Model.Labels Model.Requirements Model.Validate Spec.PathSpec Spec.QuerySpec Spec.Signer Spec.RequestSpec.
 From Verif Require Import Proofs.QueryProofs Proofs.HeaderProofs Proofs.PipelineProofs.
 From Verif Require Proofs.KeyProofs Crypto.Sha256.
-From Verif Require Import Proofs.SelectionProofs.
+From Coq Require Import Sorting.Permutation Sorting.Sorted.
+From Verif Require Import Generated.SrcConsts Model.Errors Model.Uri Model.Query Model.Headers Model.Labels Model.Requirements Model.Validate.
+From Verif Require Import Spec.PathSpec Spec.QuerySpec Spec.Signer Spec.RequestSpec.
+From Verif Require Import Proofs.PathProofs Proofs.QueryProofs Proofs.HeaderProofs Proofs.KeyProofs Proofs.ReqProofs.
+From Verif Require Import Proofs.PipelineProofs Proofs.SelectionProofs.
+From Verif Require Proofs.AuthProofs Proofs.IsoProofs.
+From Verif Require Import Proofs.SoundnessProofs.
+From Verif Require Import Proofs.SelectionProofs Proofs.CompletenessProofs.
 
 Theorem C19_header_first_value :
   forall hs n,
@@ -142,3 +149,21 @@ Theorem C19_both_carriers_refused :
     validate H rq cf pv = ([], Refused SignatureDoesNotMatch).
 Proof. exact SelectionProofs.C19_both_carriers_refused. Qed.
 Print Assumptions C19_both_carriers_refused.
+
+Theorem C19_unique_acceptance :
+  forall (H : bytes -> bytes), forall rq1 rq2 cf pv cr1 pts1 body1 cr2 pts2 body2 ap1 ap2,
+    from_request_parts H rq1 cf = Ok (cr1, pts1, body1) ->
+    from_request_parts H rq2 cf = Ok (cr2, pts2, body2) ->
+    carrier_params cr1 = Ok ap1 -> carrier_params cr2 = Ok ap2 ->
+    
+    sel_params cr1 = sel_params cr2 ->
+    
+    canonical_request cr1 (ap_signed (sel_params cr1)) = canonical_request cr2 (ap_signed (sel_params cr1)) ->
+    
+    reqs_ok (cf_reqs cf) (cr_headers cr1) (ap_signed (sel_params cr1))
+      = reqs_ok (cf_reqs cf) (cr_headers cr2) (ap_signed (sel_params cr1)) ->
+    ap1 = sel_params cr1 /\ ap2 = ap1
+    /\ fst (validate H rq1 cf pv) = fst (validate H rq2 cf pv)
+    /\ same_verdict (snd (validate H rq1 cf pv)) (snd (validate H rq2 cf pv)).
+Proof. exact CompletenessProofs.C19_unique_acceptance. Qed.
+Print Assumptions C19_unique_acceptance.
